@@ -10,6 +10,7 @@ low = fa + fb - fr, sign = top bit, comparator judged whenever a - b is represen
 The FixedPoint *helper* (py4hw/helper.py) is judged by C12 (section fixedpoint_helper), not here.
 """
 import itertools
+import os
 import time
 
 from .common import muted, rng, sgn, stable_hash
@@ -19,7 +20,9 @@ RULE = ('configurations: every signed format (1,iw,fw) with iw+fw <= 8 in same-f
         'when the width is <= 7 (quick) / <= 9, i.e. all of them (thorough), else boundary x boundary (0, +-1 lsb, +-one, most negative, most positive, '
         'alternating bits) + random; wide formats (1,15,16) (1,7,24) (1,31,32) (1,0,15) (1,0,31) (1,16,16) (1,3,60) on boundary x boundary + '
         'random; mixed-format multiplier configurations (af, bf, rf) with low = fa+fb-fr >= 0: all triples of formats up to 3 bits '
-        'exhaustively, sampled triples of larger formats.  evaluations = block outputs judged.  Non-trivial: both operands non-zero; '
+        'exhaustively, sampled triples of larger formats; output-width configurations: the comparator\'s gt/eq/lt wires and the sign '
+        'wire 1..4 bits wide (1..9 in thorough), uniform and mixed, for every format up to 5 bits (7 in thorough) exhaustively and some wide '
+        'formats -- reference = the 0/1 flag masked to the wire.  evaluations = block outputs judged.  Non-trivial: both operands non-zero; '
         'distinct by content (configuration, x, y); in the thorough tier only the cases whose content hash is 0 mod 16 are registered, so '
         'distinct_nontrivial is a lower bound there (keeps the merged set small)')
 SHARDS = {'quick': 1, 'thorough': 16}
@@ -135,11 +138,15 @@ def judge(af, bf, rf, x, y, out, stats, flags=(1, 1, 1, 1)):
         e = (int(sx > sy), int(sx == sy), int(sx < sy))
         if tuple(out['cmp']) != e:
             g = tuple(out['cmp'])
-            rel = 'gt_lt_swapped' if g == (e[2], e[1], e[0]) else ('not_one_hot' if sum(g) != 1 else 'other')
-            vs.append(V('fxp_cmp', dict(block='FixedPointComparator', config_class=cc, relation=rel,
+            if any(v > 1 for v in g):
+                bad = [nm for nm, v, ev in zip(('gt', 'eq', 'lt'), g, e) if v != ev]
+                rel = 'upper_bits_of_flag_wire_set:' + '+'.join(bad)
+            else:
+                rel = 'gt_lt_swapped' if g == (e[2], e[1], e[0]) else ('not_one_hot' if sum(g) != 1 else 'other')
+            vs.append(V('fxp_cmp', dict(block='FixedPointComparator', config_class=cc, relation=rel, flag_wires=fl,
                                         operands='equal' if d == 0 else ('same_sign' if (sx < 0) == (sy < 0) else 'opposite_sign')),
                         dict(zip(('gt', 'eq', 'lt'), e)), dict(zip(('gt', 'eq', 'lt'), g)),
-                        'FixedPointComparator %s: expected gt,eq,lt=%r observed %r' % (tag, e, g)))
+                        'FixedPointComparator %s (flag wire widths gt,eq,lt=%r): expected gt,eq,lt=%r observed %r' % (tag, tuple(flags[:3]), e, g)))
     else:
         stats['cmp_difference_not_representable'] += 1
     return n, vs
@@ -191,6 +198,20 @@ def configs(tier, seed):
                        ((1, 7, 8), (1, 7, 8), (1, 15, 16)), ((1, 7, 8), (1, 7, 8), (1, 15, 0)), ((1, 15, 16), (1, 15, 16), (1, 31, 32)),
                        ((1, 15, 16), (1, 15, 16), (1, 7, 8)), ((1, 3, 4), (1, 7, 8), (1, 11, 12)), ((1, 3, 4), (1, 7, 8), (1, 3, 4))]:
         out.append((af, bf, rf, 'boundary'))
+    out = [c + ((1, 1, 1, 1),) for c in out]
+    # output-width configurations: the flag wires (gt, eq, lt of the comparator, s of FixedPointSign) are the only outputs whose
+    # width the constructors leave free (Add/Sub/Mult assert r.getWidth() == sum(rf)); a wider flag wire must read 0/1
+    variants = [(2, 2, 2, 2), (3, 3, 3, 3), (4, 4, 4, 4), (4, 1, 1, 1), (1, 4, 1, 1), (1, 1, 4, 1), (1, 1, 1, 4), (2, 3, 4, 2)]
+    if tier == 'thorough':
+        variants += [(8, 8, 8, 8), (1, 2, 1, 3), (5, 1, 7, 1), (rnd.randint(1, 9), rnd.randint(1, 9), rnd.randint(1, 9), rnd.randint(1, 9))]
+    for f in small_formats(4 if tier == 'quick' else 6):
+        if sum(f) == 1 and not INCLUDE_1BIT_OPERANDS_WITH_WIDE_FLAGS:
+            continue            # see the assumption recorded in run_check
+        for fl in variants:
+            out.append((f, f, f, 'exhaustive', fl))
+    for f in WIDE[:3] + [(1, 3, 4)]:
+        for fl in ((4, 4, 4, 4), (2, 3, 4, 2)):
+            out.append((f, f, f, 'boundary', fl))
     return out
 
 
@@ -213,6 +234,11 @@ class Stats(dict):
 
 NT_SUBSAMPLE = 16    # thorough tier: only cases with content hash = 0 mod 16 are registered as distinct non-trivial (lower bound)
 PER_MECHANISM = 3
+# The sign-only format (1,0,0) with an eq wire wider than one bit fires on the unchanged tree (eq reads 2**w-2 / 2**w-1): the
+# comparator's 1-bit difference goes through EqualConstant's 1-bit special case, Not(a -> r), and Not fills the upper bits of a
+# wider output.  Reported to the lead (proposal C14-equalconstant_1bit_wide_output.diff); until it is decided this one
+# combination is left out of the output-width class.  C14_INCLUDE_1BIT_WIDE_FLAGS=1 puts it back.
+INCLUDE_1BIT_OPERANDS_WITH_WIDE_FLAGS = os.environ.get('C14_INCLUDE_1BIT_WIDE_FLAGS') == '1'
 M60 = (1 << 60) - 1
 
 
@@ -235,6 +261,11 @@ def run_check(run, tier, seed, shard):
     run.assume('mixed-format configurations are included for the multiplier because its constructor accepts them and the statement speaks of '
                '"the result format"; Add/Sub/Comparator assert equal formats and are judged in same-format configurations only; '
                'result formats with more fraction bits than fa+fb (low < 0) are refused by the constructor and counted as refused')
+    run.assume('output wires: Add/Sub/Mult assert r.getWidth() == sum(rf), so only the flag wires (gt, eq, lt, sign) can be wider than '
+               'their natural width; a wider flag wire must read the zero-extended 0/1')
+    if not INCLUDE_1BIT_OPERANDS_WITH_WIDE_FLAGS:
+        run.assume('excluded from the output-width class: the sign-only format (1,0,0) with flag wires wider than 1 bit -- on the pinned tree the eq '
+                   'wire then reads 2**w-2 / 2**w-1 (EqualConstant\'s 1-bit special case drives the wide wire through Not); reported, not judged')
     cfgs = configs(tier, seed)
     i, nsh = shard if shard else (0, 1)
     stats = Stats()
@@ -242,7 +273,7 @@ def run_check(run, tier, seed, shard):
     formats_done = Stats()
     deadline = time.time() + (500 if tier == 'quick' else 2400)
     ncfg = 0
-    for k, (af, bf, rf, mode) in enumerate(cfgs):
+    for k, (af, bf, rf, mode, flags) in enumerate(cfgs):
         if run.too_many:
             break
         heavy = mode == 'exhaustive' and sum(af) + sum(bf) >= 14
@@ -253,17 +284,19 @@ def run_check(run, tier, seed, shard):
             run.inconclusive.append('watchdog hit before configuration %r' % ((af, bf, rf),))
             break
         try:
-            R = Rig(af, bf, rf)
+            R = Rig(af, bf, rf, flags)
         except Exception as e:
             if cc == 'mixed_low<0':
                 run.count('refused_low<0')
                 continue
-            run.violation('fxp_build_raises', dict(config_class=cc, relation='raises:' + type(e).__name__), dict(kind='build', af=af, bf=bf, rf=rf),
+            run.violation('fxp_build_raises', dict(config_class=cc, relation='raises:' + type(e).__name__), dict(kind='build', af=af, bf=bf, rf=rf, flags=flags),
                           observed=repr(e)[:200], what='blocks for af=%r bf=%r rf=%r do not build: %r' % (af, bf, rf, e))
             continue
         ncfg += 1
         per_class['configs_' + cc] += 1
-        rnd = rng(seed, 'C14', 'ops', af, bf, rf, shard)
+        if flags != (1, 1, 1, 1):
+            per_class['configs_with_wide_flag_wires'] += 1
+        rnd = rng(seed, 'C14', 'ops', af, bf, rf, flags, shard)
         e0 = run.evaluations
         npairs = 0
         for j, (x, y) in enumerate(operand_pairs(af, bf, mode, tier, rnd)):
@@ -272,27 +305,27 @@ def run_check(run, tier, seed, shard):
             try:
                 out = R.step(x, y)
             except Exception as e:
-                run.violation('fxp_sim_raises', dict(config_class=cc, relation='raises:' + type(e).__name__), dict(kind='step', af=af, bf=bf, rf=rf, x=x, y=y),
+                run.violation('fxp_sim_raises', dict(config_class=cc, relation='raises:' + type(e).__name__), dict(kind='step', af=af, bf=bf, rf=rf, flags=flags, x=x, y=y),
                               observed=repr(e)[:200], what='propagateAll raises for af=%r bf=%r rf=%r: %r' % (af, bf, rf, e))
                 break
-            n, viols = judge(af, bf, rf, x, y, out, stats)
+            n, viols = judge(af, bf, rf, x, y, out, stats, flags)
             run.ev(n)
             npairs += 1
             if x and y:
-                h = hash((af, bf, rf, x >> 60, x & M60, y >> 60, y & M60))   # 60-bit limbs: hash(int) reduces modulo 2**61-1
+                h = hash((af, bf, rf, flags, x >> 60, x & M60, y >> 60, y & M60))   # 60-bit limbs: hash(int) reduces modulo 2**61-1
                 if tier == 'quick' or h % NT_SUBSAMPLE == 0:
                     run.nt(h)
             if viols:
-                report(run, dict(kind='step', af=af, bf=bf, rf=rf, x=x, y=y), viols)
+                report(run, dict(kind='step', af=af, bf=bf, rf=rf, flags=flags, x=x, y=y), viols)
                 if run.too_many:
                     break
             if run.evaluations % 10007 < n:
-                run.sample(dict(af=af, bf=bf, rf=rf, a=hex(x), b=hex(y), observed={kk: (hex(v) if isinstance(v, int) else v) for kk, v in out.items()}))
+                run.sample(dict(af=af, bf=bf, rf=rf, flag_wire_widths=flags, a=hex(x), b=hex(y), observed={kk: (hex(v) if isinstance(v, int) else v) for kk, v in out.items()}))
             if npairs % 4096 == 0 and time.time() > deadline:
                 run.inconclusive.append('watchdog hit inside configuration %r' % ((af, bf, rf),))
                 break
         per_class['evaluations_' + cc] += run.evaluations - e0
-        if cc == 'same_format':
+        if cc == 'same_format' and flags == (1, 1, 1, 1):
             formats_done['%d.%d.%d' % af] += npairs
     run.extra['configurations'] = ncfg
     run.extra['per_config_class'] = dict(per_class)
@@ -319,9 +352,10 @@ def _floors(run, stats):
 def replay(run, case):
     c = case['case']
     af, bf, rf = tuple(c['af']), tuple(c['bf']), tuple(c['rf'])
+    flags = tuple(c.get('flags', (1, 1, 1, 1)))
     if c.get('kind') == 'build':
         try:
-            Rig(af, bf, rf)
+            Rig(af, bf, rf, flags)
             print('replay: builds')
             return 0
         except Exception as e:
@@ -331,10 +365,10 @@ def replay(run, case):
     x, y = c['x'], c['y']
     x = int(x, 16) if isinstance(x, str) else x
     y = int(y, 16) if isinstance(y, str) else y
-    R = Rig(af, bf, rf)
+    R = Rig(af, bf, rf, flags)
     out = R.step(x, y)
-    n, viols = judge(af, bf, rf, x, y, out, Stats())
-    print('replay af=%r bf=%r rf=%r a=%#x b=%#x ->' % (af, bf, rf, x, y), out)
+    n, viols = judge(af, bf, rf, x, y, out, Stats(), flags)
+    print('replay af=%r bf=%r rf=%r flag widths=%r a=%#x b=%#x ->' % (af, bf, rf, flags, x, y), out)
     blk = c.get('block')
     rel = [v for v in viols if blk is None or v['fields'].get('block') == blk] or viols
     for v in rel:
